@@ -11,14 +11,21 @@ attributes = per-key sorted union (numeric when every value is a number and nume
 several IDs joined by '-'; N-1 law; inputs and database unchanged.
 
 database-backed clauses (`create_introns`, `create_splice_sites`): gene models imported with the real code, the yielded
-features compared with the gaps / two-base sites computed from the exon coordinates, and with the model (DbExport).
+features compared with the gaps / two-base sites computed from the generator's record of the exons (coordinates, strand
+AND attributes = per-key sorted union of the two neighbouring exons, incl. keys that are valueless on one side), and with
+the model (DbExport); four-level models gene -> mRNA -> part -> exon are compared with the model only
+(`judge_gene_models`, replayable).
 """
 import itertools
+import os
 import re
 
 import common
+import dbside
 import featlist as FL
+import gen_db
 import pyside
+from common import enc
 
 TRUSTED = [
     "float() on the decimal grammar [+-]?(digits[.digits*]|.digits+) is order-preserving w.r.t. the exact rational value "
@@ -103,10 +110,21 @@ def snapshot(objs):
 # generators
 
 def rand_attrs(r, i, numeric_bias):
-    keys = r.sample(["ID", "Parent", "exon_number", "Name", "n"], r.randrange(0, 4))
+    keys = r.sample(["ID", "Parent", "exon_number", "Name", "n", "Note", "Dbxref"], r.randrange(0, 4))
     parts = []
     for k in keys:
-        if k == "ID":
+        if k in ("Note", "Dbxref"):
+            # a key listed without a value (`Note`, `Dbxref=`): the parser stores the EMPTY list - the union with a
+            # neighbour that has values for the key keeps the neighbour's values
+            form = r.randrange(4)
+            if form == 0:
+                parts.append(k)
+                continue
+            if form == 1:
+                parts.append(k + "=")
+                continue
+            vals = r.sample(WORDVALS + ["X:1", "X:2"], r.randrange(1, 3))
+        elif k == "ID":
             vals = ["e%d" % i] if r.random() < 0.8 else ["e%d" % i, "alt%d" % i]
         elif k in ("exon_number", "n"):
             pool = NUMVALS if r.random() < numeric_bias else NUMVALS + WORDVALS
@@ -139,6 +157,186 @@ def rand_items(r, n, npos=12, none_coords=False):
 UPDATES = [None, None, {}, {"ID": ["x", "y"]}, {"k": ["v"], "Parent": ["q"]}, {"ID": ["only"]}, {"n": ["2", "10"]}]
 
 
+# ---------------------------------------------------------------------------------------------------
+# database-backed clauses: gene models, their oracle (one case = one imported file + one set of keyword arguments)
+
+def gene_models(r2, gtf, deep=False):
+    """1-3 genes x 1-3 transcripts x 1-5 exons, either strand, exon starts pairwise different per transcript; exons
+    carry an ID and now and then a `Note` / `Dbxref` (GTF: `tag`) attribute that is VALUELESS on some exons (the parser
+    stores []) and has values on others.  deep: GFF3 with a fourth level, mRNA -> part -> exon, beside (or instead of)
+    the exons directly under the mRNA.  Returns (lines, models); models is plain JSON."""
+    lines, models = [], []
+    for g in range(r2.randrange(1, 4)):
+        gid = "g%d" % g
+        strand = r2.choice("+-")
+        seqid = r2.choice(["chr1", "chr2"])
+        tx = []
+        for t in range(r2.randrange(1, 4)):
+            tid = "%st%d" % (gid, t)
+
+            def chain(prefix, parent, n):
+                pos = r2.randrange(1, 300)
+                out = []
+                for e in range(n):
+                    ln = r2.randrange(1, 80)
+                    eid = "%se%d" % (prefix, e)
+                    if gtf:
+                        attrs = {"gene_id": [gid], "transcript_id": [tid], "ID": [eid]}
+                        opt = ["tag"]
+                    else:
+                        attrs = {"ID": [eid], "Parent": [parent]}
+                        opt = ["Note", "Dbxref"]
+                    for k in opt:
+                        u = r2.random()
+                        if u < 0.25:
+                            attrs[k] = []                                        # valueless key
+                        elif u < 0.5:
+                            attrs[k] = r2.sample(["p", "first", "last", "X:1", "X:2"], r2.randrange(1, 3))
+                    out.append({"start": pos, "end": pos + ln - 1, "attrs": attrs})
+                    pos += ln + r2.choice([0, 0, 1, 2, 30, 200])       # touching exons (gap 0) give no intron
+                return out
+            nparts = r2.randrange(1, 3) if (deep and r2.random() < 0.75) else 0
+            exons = chain(tid, tid, r2.randrange(0 if nparts else 1, 6))
+            parts = [{"id": "%sp%d" % (tid, q), "exons": chain("%sp%d" % (tid, q), "%sp%d" % (tid, q), r2.randrange(1, 5))}
+                     for q in range(nparts)]
+            tx.append({"tid": tid, "exons": exons, "parts": parts})
+        models.append({"gid": gid, "seqid": seqid, "strand": strand, "tx": tx})
+        allx = [x for t in tx for x in t["exons"] + [y for q in t["parts"] for y in q["exons"]]]
+        gs, ge = min(x["start"] for x in allx), max(x["end"] for x in allx)
+        if not gtf:
+            lines.append(gen_db.gff_line(seqid, "gene", gs, ge, strand, [("ID", [gid])]))
+        for t in tx:
+            tid = t["tid"]
+            mine = t["exons"] + [y for q in t["parts"] for y in q["exons"]]
+            if not gtf:
+                lines.append(gen_db.gff_line(seqid, "mRNA", min(x["start"] for x in mine), max(x["end"] for x in mine),
+                                             strand, [("ID", [tid]), ("Parent", [gid])]))
+            block = [("exon", x) for x in t["exons"]]
+            for q in t["parts"]:
+                block.append(("part", {"start": min(x["start"] for x in q["exons"]), "end": max(x["end"] for x in q["exons"]),
+                                       "attrs": {"ID": [q["id"]], "Parent": [tid]}}))
+                block += [("exon", x) for x in q["exons"]]
+            r2.shuffle(block)
+            for ft, x in block:
+                mk = gen_db.gtf_line if gtf else gen_db.gff_line
+                lines.append(mk(seqid, ft, x["start"], x["end"], strand, list(x["attrs"].items())))
+    return lines, models
+
+
+def expected_introns(models, merge_attributes):
+    """from the property text: per transcript, the gaps between its start-ordered exons (one base at least), stranded
+    like the exons, attributes = per-key sorted union of the two neighbouring exons (several IDs joined by '-')"""
+    out = []
+    for m in models:
+        for t in m["tx"]:
+            ex = sorted(t["exons"], key=lambda x: x["start"])
+            for p, n in zip(ex, ex[1:]):
+                if p["end"] + 1 <= n["start"] - 1:
+                    attrs = oracle_union(p["attrs"], n["attrs"], False) if merge_attributes else {}
+                    if len(attrs.get("ID", [])) > 1:
+                        attrs["ID"] = ["-".join(attrs["ID"])]
+                    out.append({"seqid": m["seqid"], "start": p["end"] + 1, "end": n["start"] - 1, "strand": m["strand"],
+                                "attributes": attrs})
+    return out
+
+
+def _canon_feats(feats):
+    return sorted((f["seqid"], f["start"], f["end"], f["strand"], f.get("featuretype", ""),
+                   sorted((k, list(v)) for k, v in f["attributes"].items())) for f in feats)
+
+
+def _obs_feats(feats, with_type):
+    return [{"seqid": f.seqid, "start": f.start, "end": f.end, "strand": f.strand,
+             "featuretype": f.featuretype if with_type else "",
+             "attributes": {k: list(f.attributes[k]) for k in f.attributes.keys()}} for f in feats]
+
+
+def judge_gene_models(ctx, res, case):
+    """import the file of `case` with the real code, run create_introns / create_splice_sites with the case's keyword
+    arguments and judge them against the gaps computed from the generator's record of the exons.  Returns what was
+    observed (for the correspondence), None when the import failed."""
+    import gffutils
+    lines, kw, models = case["input"], dict(case.get("kwargs", {})), case["models"]
+    path = dbside.write_lines(os.path.join(ctx.scratch, "introns." + ("gtf" if case.get("gtf") else "gff3")), lines)
+    db, rep = dbside.py_create(path, dbside.Cfg())
+    if db is None:
+        common.fail(res, case, "create_db_raised", "create_db raised on a gene model: " + rep, error=rep)
+        return None
+    obs = {"create": rep}
+    before = dbside.dump(db)
+    ma = kw.get("merge_attributes", True)
+    judge = not case.get("deep")
+    want = expected_introns(models, ma)
+    try:
+        introns = list(db.create_introns(**kw))
+        obs["introns"] = introns
+    except Exception as ex:
+        common.fail(res, case, "create_introns_raised", "create_introns raised %r" % ex, error=pyside.err_name(ex))
+        return obs
+    if judge:
+        got = _obs_feats(introns, False)
+        if ([g[:4] for g in _canon_feats(got)] != [w[:4] for w in _canon_feats(want)]
+                or any(f.featuretype != "intron" for f in introns)):
+            common.fail(res, case, "introns_not_the_gaps",
+                        "create_introns does not yield exactly the gaps between the start-ordered exons of each transcript",
+                        returned=[g[:4] for g in _canon_feats(got)], expected=[w[:4] for w in _canon_feats(want)])
+        elif _canon_feats(got) != _canon_feats(want):
+            bad = [g for g in _canon_feats(got) if g not in _canon_feats(want)]
+            miss = [w for w in _canon_feats(want) if w not in _canon_feats(got)]
+            common.fail(res, case, "intron_attributes_not_the_union",
+                        "an intron's attributes are not the per-key sorted union of its two neighbouring exons' values",
+                        returned=bad[:3], expected=miss[:3])
+        for f in introns:
+            if f.bin != gffutils.bins.bins(f.start, f.end, one=True):
+                common.fail(res, case, "intron_bin_wrong", "an intron's bin is not bins(start, end)", intron=str(f))
+    # splice sites
+    try:
+        sites = list(db.create_splice_sites(**kw))
+        obs["sites"] = sites
+    except Exception as ex:
+        common.fail(res, case, "create_splice_sites_raised", "create_splice_sites raised %r" % ex, error=pyside.err_name(ex))
+        sites = None
+    if judge and sites is not None:
+        exp_sites = []
+        for side in ("left", "right"):
+            for w in want:
+                if side == "left":
+                    ft = {"+": "five_prime_cis_splice_site", "-": "three_prime_cis_splice_site"}.get(w["strand"], "splice_site")
+                    a, b = w["start"], w["start"] + 1
+                else:
+                    ft = {"+": "three_prime_cis_splice_site", "-": "five_prime_cis_splice_site"}.get(w["strand"], "splice_site")
+                    a, b = w["end"] - 1, w["end"]
+                attrs = {k: list(v) for k, v in w["attributes"].items()}
+                if "ID" in attrs:
+                    attrs["ID"] = [ft + "_" + attrs["ID"][0]]
+                exp_sites.append({"seqid": w["seqid"], "start": a, "end": b, "strand": w["strand"], "featuretype": ft,
+                                  "attributes": attrs})
+        got = _obs_feats(sites, True)
+        half = len(got) // 2
+        geo = lambda fs: [x[:5] for x in _canon_feats(fs)]
+        if not (geo(got) == geo(exp_sites) and geo(got[:half]) == geo(exp_sites[:half])):
+            common.fail(res, case, "splice_sites_wrong",
+                        "create_splice_sites does not yield the two-base sites [start,start+1] / [end-1,end] of each "
+                        "intron labelled by side and strand (left sites first)", returned=geo(got), expected=geo(exp_sites))
+        elif _canon_feats(got) != _canon_feats(exp_sites):
+            bad = [g for g in _canon_feats(got) if g not in _canon_feats(exp_sites)]
+            miss = [w for w in _canon_feats(exp_sites) if w not in _canon_feats(got)]
+            common.fail(res, case, "splice_site_attributes_wrong",
+                        "a splice site's attributes are not the union of its intron's neighbouring exons with the ID "
+                        "prefixed by the site type", returned=bad[:3], expected=miss[:3])
+    if dbside.dump(db) != before:
+        common.fail(res, case, "database_changed", "create_introns / create_splice_sites changed the database")
+    return obs
+
+
+def judge(ctx, case):
+    res = common.Result("C15")
+    if case.get("scenario") == "gene_models":
+        judge_gene_models(ctx, res, case)
+        res.evaluations = 1
+    return res
+
+
 def run(ctx):
     from gffutils import helpers
     res = common.Result("C15")
@@ -146,7 +344,8 @@ def run(ctx):
     res.rule = ("(a) every ordered list of <= 3 intervals over 5 positions on one seqid (quick: lists of 3 thinned to "
                 "1/3) and with a seqid change at every position; (b) random lists of 1-8 features over 12 positions "
                 "(gaps, adjacency, overlap, nesting, seqid changes, mixed strands, multi-valued attributes incl. "
-                "numeric ones), merge_attributes on/off, numeric_sort on/off, update_attributes, new_featuretype; "
+                "numeric ones and valueless keys = empty value lists), merge_attributes on/off, numeric_sort on/off, "
+                "update_attributes, new_featuretype; (b2) directed pairs with a key that is valueless in one neighbour; "
                 "(c) merge_attributes directly; (d) None coordinates (correspondence only). non-trivial = distinct "
                 "(options, list) with >= 2 features")
     db = FL.new_db()
@@ -234,6 +433,22 @@ def run(ctx):
         if t < 3:
             res.sample(payload)
 
+    # (b2) directed: a key present in both neighbours, EMPTY (valueless `Note` / `Dbxref=`) in one and non-empty in the
+    # other, both ways round, alone and next to other keys -------------------------------------------------------
+    for earlier, later in itertools.product(["Note=first", "Note", "Note=", "Note=b,a", "ID=a;Note=x;Dbxref=X:2,X:1",
+                                             "ID=a;Note;Dbxref", "n=10,9;Note"],
+                                            ["Note", "Note=", "Note=second", "ID=b;Note;Dbxref=", "ID=b;Note=y;Dbxref=X:3",
+                                             "n;Note=z"]):
+        for ns in (False, True):
+            items = [FL.Item(FL.gff_line("c1", 1, 3, "+", "exon", attrs=earlier)),
+                     FL.Item(FL.gff_line("c1", 7, 9, "+", "exon", attrs=later)),
+                     FL.Item(FL.gff_line("c1", 12, 13, "+", "exon", attrs=earlier))]
+            kw = {"merge_attributes": True, "numeric_sort": ns}
+            payload = {"stream": "valueless-key", "options": kw, "features": [it.as_json() for it in items]}
+            case(items, kw, payload)
+            res.count("valueless_key_directed")
+            res.nontriv(("vk", earlier, later, ns))
+
     # (c) merge_attributes ----------------------------------------------------------------------------------------
     nc = 3000 if not ctx.thorough else 30000
     mcmds, mexp, mtags = [], [], []
@@ -242,7 +457,7 @@ def run(ctx):
             d = {}
             for k in r.sample(["ID", "Parent", "n", "Name", "z"], r.randrange(0, 5)):
                 pool = NUMVALS if (k == "n" and r.random() < 0.7) else NUMVALS + WORDVALS
-                d[k] = r.sample(pool, r.randrange(1, 4))
+                d[k] = r.sample(pool, r.randrange(1, 4)) if r.random() < 0.85 else []      # [] = a valueless key
             return d
         a1, a2 = rd(), rd()
         ns = r.random() < 0.5
@@ -289,122 +504,46 @@ def run(ctx):
                 res.corr_disagreements.append(("helpers.merge_attributes", tag, m[:800], e[:800]))
 
     # ---- database-backed clauses: create_introns / create_splice_sites ------------------------------------------------
-    import os
-    import dbside
-    import gen_db
-    from common import enc
     r2 = ctx.rng("introns")
     dcmds, dexp, dtags = [], [], []
-
-    def gene_models(gtf):
-        """1-3 genes x 1-3 transcripts x 1-5 exons, either strand, exon starts pairwise different per transcript"""
-        lines, models = [], []
-        for g in range(r2.randrange(1, 4)):
-            gid = "g%d" % g
-            strand = r2.choice("+-")
-            seqid = r2.choice(["chr1", "chr2"])
-            tx = []
-            for t in range(r2.randrange(1, 4)):
-                tid = "%st%d" % (gid, t)
-                pos = r2.randrange(1, 300)
-                exons = []
-                for e in range(r2.randrange(1, 6)):
-                    ln = r2.randrange(1, 80)
-                    exons.append((pos, pos + ln - 1))
-                    pos += ln + r2.choice([0, 0, 1, 2, 30, 200])       # touching exons (gap 0) give no intron
-                tx.append((tid, exons))
-            models.append((gid, seqid, strand, tx))
-            allx = [x for _, ex in tx for x in ex]
-            gs, ge = min(a for a, b in allx), max(b for a, b in allx)
-            if not gtf:
-                lines.append(gen_db.gff_line(seqid, "gene", gs, ge, strand, [("ID", [gid])]))
-            for tid, exons in tx:
-                if not gtf:
-                    lines.append(gen_db.gff_line(seqid, "mRNA", exons[0][0], exons[-1][1], strand, [("ID", [tid]), ("Parent", [gid])]))
-                order = list(range(len(exons)))
-                r2.shuffle(order)
-                for i in order:
-                    a, b = exons[i]
-                    if gtf:
-                        lines.append(gen_db.gtf_line(seqid, "exon", a, b, strand, [("gene_id", [gid]), ("transcript_id", [tid]), ("ID", ["%se%d" % (tid, i)])]))
-                    else:
-                        lines.append(gen_db.gff_line(seqid, "exon", a, b, strand, [("ID", ["%se%d" % (tid, i)]), ("Parent", [tid])]))
-        return lines, models
-
-    def expected_introns(models):
-        out = []
-        for gid, seqid, strand, tx in models:
-            for tid, exons in tx:
-                ex = sorted(exons)
-                for (a1, b1), (a2, b2) in zip(ex, ex[1:]):
-                    if b1 + 1 <= a2 - 1:
-                        out.append((seqid, b1 + 1, a2 - 1, strand, tid))
-        return out
-
     nmodels = 30 if not ctx.thorough else 400
-    for mi in range(nmodels):
-        gtf = r2.random() < 0.4
-        lines, models = gene_models(gtf)
-        path = dbside.write_lines(os.path.join(ctx.scratch, "introns." + ("gtf" if gtf else "gff3")), lines)
-        db, rep = dbside.py_create(path, dbside.Cfg())
-        if db is None:
-            res.oracle_failures.append(("create_db raised on a gene model: " + rep, {"lines": lines}))
-            continue
-        before = dbside.dump(db)
-        inp = {"lines": lines}
-        res.evaluations += 1
-        res.count("gene_models_gtf" if gtf else "gene_models_gff3")
-        want = expected_introns(models)
-        use_parent = (not gtf) and r2.random() < 0.3
-        kw = dict(grandparent_featuretype=None, parent_featuretype="mRNA") if use_parent else {}
-        ma = r2.random() < 0.7                    # merge_attributes on / off
-        if not ma:
+    ndeep = 10 if not ctx.thorough else 120
+    for mi in range(nmodels + ndeep):
+        deep = mi >= nmodels
+        gtf = (not deep) and r2.random() < 0.4
+        lines, models = gene_models(r2, gtf, deep)
+        if deep:
+            # four levels gene -> mRNA -> part -> exon: which features count as "transcripts" is the code's choice
+            # (level-1 children of the grandparent type / the features of the parent type): correspondence only
+            kw = r2.choice([{}, {}, {}, dict(grandparent_featuretype=None, parent_featuretype="mRNA"),
+                            dict(grandparent_featuretype=None, parent_featuretype="part"),
+                            dict(grandparent_featuretype="mRNA")])
+        else:
+            kw = dict(grandparent_featuretype=None, parent_featuretype="mRNA") if ((not gtf) and r2.random() < 0.3) else {}
+        if r2.random() >= 0.7:                    # merge_attributes on / off
             kw = dict(kw, merge_attributes=False)
-        try:
-            introns = list(db.create_introns(**kw))
-            got = sorted((f.seqid, f.start, f.end, f.strand) for f in introns)
-            if got != sorted(w[:4] for w in want) or any(f.featuretype != "intron" for f in introns):
-                res.oracle_failures.append(("create_introns does not yield exactly the gaps between the start-ordered "
-                                            "exons of each transcript", dict(inp, returned=got, expected=sorted(w[:4] for w in want))))
-            for f in introns:
-                if f.bin != __import__("gffutils").bins.bins(f.start, f.end, one=True):
-                    res.oracle_failures.append(("an intron's bin is not bins(start, end)", dict(inp, intron=str(f))))
-            res.nontriv(("introns", tuple(lines)))
-            dcmds.append(dbside.cmd_create(lines, dbside.Cfg())); dexp.append(rep); dtags.append(("create_db", repr(lines)))
-            gpw, ptw = ("~", enc("mRNA")) if use_parent else (enc("gene"), "~")
-            dcmds.append("introns %s %s %s %s %d 0" % (gpw, ptw, enc("exon"), enc("intron"), 1 if ma else 0))
-            dexp.append(("FEATS", [pyside.enc_feature(f) for f in introns])); dtags.append(("create_introns", repr(lines)))
-        except Exception as ex:
-            res.oracle_failures.append(("create_introns raised %r" % ex, inp))
+        case = {"scenario": "gene_models", "input": lines, "gtf": gtf, "deep": deep, "kwargs": kw, "models": models,
+                "no_shrink": True}
+        obs = judge_gene_models(ctx, res, case)
+        if obs is None:
             continue
-        # splice sites
-        try:
-            sites = list(db.create_splice_sites(**kw))
-            exp_sites = []
-            for side in ("left", "right"):
-                for (seqid, a, b, strand, tid) in want:
-                    if side == "left":
-                        ft = {"+": "five_prime_cis_splice_site", "-": "three_prime_cis_splice_site"}.get(strand, "splice_site")
-                        exp_sites.append((seqid, a, a + 1, strand, ft))
-                    else:
-                        ft = {"+": "three_prime_cis_splice_site", "-": "five_prime_cis_splice_site"}.get(strand, "splice_site")
-                        exp_sites.append((seqid, b - 1, b, strand, ft))
-            got = [(f.seqid, f.start, f.end, f.strand, f.featuretype) for f in sites]
-            half = len(got) // 2
-            ok = sorted(got) == sorted(exp_sites) and sorted(got[:half]) == sorted(exp_sites[:half])
-            if not ok:
-                res.oracle_failures.append(("create_splice_sites does not yield the two-base sites [start,start+1] / "
-                                            "[end-1,end] of each intron labelled by side and strand (left sites first)",
-                                            dict(inp, returned=got, expected=exp_sites)))
-            for f in sites:
-                if ma and not f.attributes["ID"][0].startswith(f.featuretype + "_"):
-                    res.oracle_failures.append(("a splice site's ID is not prefixed with its type", dict(inp, site=str(f))))
+        res.evaluations += 1
+        res.count("gene_models_four_levels" if deep else "gene_models_gtf" if gtf else "gene_models_gff3")
+        res.nontriv(("introns", tuple(lines), tuple(sorted(kw.items()))))
+        if any(not v for m in models for t in m["tx"] for x in t["exons"] for v in x["attrs"].values()):
+            res.count("gene_models_with_valueless_exon_attribute")
+        gp = kw.get("grandparent_featuretype", "gene")
+        gpw, ptw = enc(gp), enc(kw.get("parent_featuretype"))
+        ma = kw.get("merge_attributes", True)
+        dcmds.append(dbside.cmd_create(lines, dbside.Cfg())); dexp.append(obs["create"]); dtags.append(("create_db", repr(lines)))
+        if "introns" in obs:
+            dcmds.append("introns %s %s %s %s %d 0" % (gpw, ptw, enc("exon"), enc("intron"), 1 if ma else 0))
+            dexp.append(("FEATS", [pyside.enc_feature(f) for f in obs["introns"]]))
+            dtags.append(("create_introns", repr((kw, lines))))
+        if "sites" in obs:
             dcmds.append("splice %s %s %s %d 0" % (gpw, ptw, enc("exon"), 1 if ma else 0))
-            dexp.append(("FEATS", [pyside.enc_feature(f) for f in sites])); dtags.append(("create_splice_sites", repr(lines)))
-        except Exception as ex:
-            res.oracle_failures.append(("create_splice_sites raised %r" % ex, inp))
-        if dbside.dump(db) != before:
-            res.oracle_failures.append(("create_introns / create_splice_sites changed the database", inp))
+            dexp.append(("FEATS", [pyside.enc_feature(f) for f in obs["sites"]]))
+            dtags.append(("create_splice_sites", repr((kw, lines))))
     dout = ctx.model([c for c in dcmds if c]) if dcmds else None
     if dout is not None:
         for c, m, e, (comp, inpx) in zip([c for c in dcmds if c], dout, dexp, dtags):
@@ -426,13 +565,17 @@ def run(ctx):
         "oracle does not judge these columns",
         "gene models for create_introns / create_splice_sites: exons of a transcript have pairwise different starts "
         "(SQL leaves ties unordered) and carry an ID attribute",
+        "four-level gene models (gene -> mRNA -> part -> exon): the property does not say which features count as the "
+        "transcripts / their exons there; create_introns / create_splice_sites are compared with the model only",
     ]
     return res
 
 
 def replay(ctx, payload):
-    res = common.Result("C15")
     inp = payload.get("input", {})
+    if isinstance(inp, dict) and inp.get("scenario") == "gene_models":
+        return common.replay_failure("C15", payload, lambda case: judge(ctx, case))
+    res = common.Result("C15")
     db = FL.new_db()
     if "features" in inp:
         items = [FL.Item.from_json(d) for d in inp["features"]]
